@@ -152,14 +152,8 @@ def run(ctx, chk):
             continue
         inst = "path %d (%s)" % (k, Tn[t])
         calls = [e for e in pa.events if e.kind == "call" and e.ckind == "lib"]
-        if t in (T["CBOR_TYPE_UINT"], T["CBOR_TYPE_NEGINT"]):
-            c = [e for e in calls if e.callee == "_cbor_copy_int"]
-            ok = len(c) == 1 and c[0].args == (SRC, ("c", 1 if t == T["CBOR_TYPE_NEGINT"] else 0)) and pa.ret == c[0].res
-            chk.ob("C11.shape", inst + ": integer helper with the right sign flag", ok, where, fn=f.name, key="shape:int:%d" % t)
-        elif t == T["CBOR_TYPE_FLOAT_CTRL"]:
-            c = [e for e in calls if e.callee == "_cbor_copy_float_ctrl"]
-            ok = len(c) == 1 and c[0].args == (SRC,) and pa.ret == c[0].res
-            chk.ob("C11.shape", inst + ": float/ctrl helper", ok, where, fn=f.name, key="shape:float")
+        if t in (T["CBOR_TYPE_UINT"], T["CBOR_TYPE_NEGINT"], T["CBOR_TYPE_FLOAT_CTRL"]):
+            pass   # leaf arms are decided on the state of the returned item (below)
         elif t == T["CBOR_TYPE_TAG"]:
             bt = [e for e in calls if e.callee == "cbor_build_tag"]
             cp = [e for e in calls if e.callee == "cbor_copy"]
@@ -211,35 +205,64 @@ def run(ctx, chk):
                        key="shape:members:%d:%s:%d" % (t, definite, len(ins)))
     missing = [n for n, v in T.items() if v not in seen]
     chk.ob("C11.exhaustive", "copy switch covers every cbor_type", not missing, where, fn=f.name, detail="no arm for %s" % missing if missing else "")
-    # integer helper widths
-    ci = prog.fn("_cbor_copy_int")
+    # leaf arms (integers, floats, simple values): decided on the STATE of the item cbor_copy returns, with its static
+    # helpers and the constructors/setters inlined - independent of how the copy is coded
     IW = prog.enum("cbor_int_width")
-    wseen = set()
-    for k, pa in enumerate(cache.get(ci.name)):
-        w = None
+    FW = prog.enum("cbor_float_width")
+    off_ = {m["name"]: m["offset_bits"] // 8 for m in prog.struct_members("cbor_item_t")}
+    helpers = {n for n in prog.funcs if prog.funcs[n].internal and prog.funcs[n].unit == f.unit and n.startswith("_cbor_copy")}
+    seen_leaf = set()
+    nleaf = 0
+    for k, rs in enumerate(tables.result_states(prog, eff, "cbor_copy", extra_inline=helpers)):
+        pa, d = rs["path"], rs["desc"]
+        ty = w = None
+        wfn = None
         for key, vals in pa.st.inset.items():
-            if strip(key)[0] == "call" and strip(key)[1] == "cbor_int_get_width":
-                w = sorted(vals)
-        if not w or len(w) != 1:
+            kk = strip(key)
+            if kk[0] == "call" and kk[1] == "cbor_typeof":
+                ty = sorted(vals)
+            elif kk[0] == "call" and kk[1] in ("cbor_int_get_width", "cbor_float_get_width"):
+                w, wfn = sorted(vals), kk[1]
+        leaf_types = {T["CBOR_TYPE_UINT"], T["CBOR_TYPE_NEGINT"], T["CBOR_TYPE_FLOAT_CTRL"]}
+        if ty is None or len(ty) != 1 or ty[0] not in leaf_types or d is None:
             continue
-        w = w[0]
-        bits = {0: "8", 1: "16", 2: "32", 3: "64"}[w]
-        b = [e for e in pa.events if e.kind == "call" and e.callee.startswith("cbor_build_")]
-        g = [e for e in pa.events if e.kind == "call" and e.callee.startswith("cbor_get_uint")]
-        ok = len(b) == 1 and len(g) == 1 and b[0].callee == "cbor_build_uint" + bits and g[0].callee == "cbor_get_uint" + bits \
-            and strip(b[0].args[0]) == g[0].res and g[0].args[0] == SRC
-        wseen.add(w)
-        chk.ob("C11.shape", "_cbor_copy_int width %s: build_uint%s(get_uint%s(source))" % (bits, bits, bits), ok, "%s:%d" % (ci.file, ci.line),
-               fn=ci.name, key="int:%d" % w)
-        neg = pa.st.truth.get(("arg", 1))
-        marks = pa.calls("cbor_mark_negint")
-        if neg is None:
-            for t_, tr in pa.st.truth.items():
-                if strip(t_) == ("arg", 1):
-                    neg = tr
-        if b and pa.st.known_nonnull(b[0].res):
-            okn = (len(marks) == 1 and marks[0].args[0] == b[0].res) if neg else not marks
-            chk.ob("C11.shape", "_cbor_copy_int width %s negative=%s: %s" % (bits, neg, "re-marked" if neg else "left unsigned"), okn,
-                   "%s:%d" % (ci.file, ci.line), fn=ci.name, key="int:%d:%s" % (w, neg))
-    chk.ob("C11.shape", "_cbor_copy_int covers the four widths", wseen == set(IW.values()), "%s:%d" % (ci.file, ci.line), fn=ci.name, key="int:all")
+        t0 = ty[0]
+        nleaf += 1
+        det = []
+
+        def same_as_source(v, const, src_off):
+            return v == ("c", const) or (isinstance(v, tuple) and v[0] == "ld" and v[1] == SRC and v[2] == src_off)
+        if not same_as_source(d["type"], t0, off_["type"]):
+            det.append("type of the copy is %s, source is %s" % (d["type"], Tn[t0]))
+        if d["refcount"] != ("c", 1):
+            det.append("reference count of the copy is %s, must be exactly 1" % (DR.fmt_term(d["refcount"]) if d["refcount"] is not None else "never initialised"))
+        if w is not None and len(w) == 1:
+            if not same_as_source(d["meta0"], w[0], off_["metadata"]):
+                det.append("width of the copy is %s, source width is %d" % (d["meta0"], w[0]))
+            seen_leaf.add((t0 == T["CBOR_TYPE_FLOAT_CTRL"], w[0]))
+            is_ctrl = t0 == T["CBOR_TYPE_FLOAT_CTRL"] and w[0] == FW["CBOR_FLOAT_0"]
+            if not is_ctrl:
+                if d["data_kind"] != "interior":
+                    det.append("payload pointer of the copy is %s (must point into the copy's own block)" % d["data_kind"])
+                pays = d.get("payload") or {}
+                src_read = False
+                for pty, pay in pays.items():
+                    p0 = strip(pay)
+                    if p0[0] == "call":
+                        ev = [e for e in pa.events if e.kind == "call" and e.res == p0]
+                        if ev and ev[0].args and ev[0].args[0] == SRC:
+                            pre = [a for a in H.get(ev[0].callee, []) if a.get("param") == 0 and a.get("entry", True) and a["kind"] == "eq"]
+                            src_read = any(a["const"] == w[0] for a in pre)
+                    elif p0[0] == "ld" and p0[1][0] == "ld" and p0[1][1] == SRC and p0[1][2] == off_["data"] and p0[2] == 0:
+                        src_read = True
+                if not src_read:
+                    det.append("payload of the copy is not the value read from the source at its own width")
+        elif not (isinstance(d["meta0"], tuple) and d["meta0"][0] == "ld" and d["meta0"][1] == SRC and d["meta0"][2] == off_["metadata"]):
+            det.append("the width of the source is neither examined nor copied")
+        chk.ob("C11.shape", "cbor_copy leaf path %d (%s, width %s): fresh item with the source's type/width/value and reference count 1"
+               % (k, Tn[t0], w), not det, where, fn=f.name, key="leaf:%d:%s" % (t0, w), detail="; ".join(det), path=pa.block_lines() if det else None)
+    want_leaf = {(False, v) for v in IW.values()} | {(True, v) for v in FW.values()}
+    chk.ob("C11.shape", "leaf arms cover the four integer and four float/ctrl widths", want_leaf <= seen_leaf, where, fn=f.name, key="leaf:all",
+           detail="" if want_leaf <= seen_leaf else "missing %s" % sorted(want_leaf - seen_leaf))
+    chk.floor("C11.shape", "leaf copy paths", nleaf, 10)
     chk.exhaustive = True
